@@ -162,29 +162,30 @@ def ob_append_tier(kind, ka, kb, timeout):
     else:
         na = ["at%d" % i for i in range(ka)]
         nb = ["bt%d" % i for i in range(kb)]
-    names = ["hia", "hib"] + na + nb
+    names = ["hia", "hib", "loa", "lob"] + na + nb
 
-    def pre(hia, hib, *ts):
+    def pre(hia, hib, loa, lob, *ts):
         A, B = ts[: len(na)], ts[len(na):]
         if kind == "interval":
-            ok = ivs_wf_pre(0.0, hia, *A) & ivs_wf_pre(0.0, hib, *B)
+            ok = ivs_wf_pre(loa, hia, *A) & ivs_wf_pre(lob, hib, *B)
         else:
-            ok = pts_wf_pre(0.0, hia, *A) & pts_wf_pre(0.0, hib, *B)
-        return ok & (hia <= 512.0) & (hib <= 512.0)
+            ok = pts_wf_pre(loa, hia, *A) & pts_wf_pre(lob, hib, *B)
+        return ok & (hia <= 512.0) & (hib <= 512.0) & (0.0 <= loa) & (0.0 <= lob) & (loa <= hia) & (lob <= hib)
 
-    def body(hia, hib, *ts):
+    def body(hia, hib, loa, lob, *ts):
+        # either tier may start after 0 (e.g. the result of a crop without rebasing)
         A, B = ts[: len(na)], ts[len(na):]
         if kind == "interval":
             ea = [(A[2 * i], A[2 * i + 1], LABELS[i]) for i in range(ka)]
             eb = [(B[2 * i], B[2 * i + 1], LABELS[2 + i]) for i in range(kb)]
-            ta = IntervalTier("a", [Interval(*e) for e in ea], 0.0, hia)
-            tb = IntervalTier("b", [Interval(*e) for e in eb], 0.0, hib)
+            ta = IntervalTier("a", [Interval(*e) for e in ea], loa, hia)
+            tb = IntervalTier("b", [Interval(*e) for e in eb], lob, hib)
             exp = ea + [(s + hia, e + hia, l) for (s, e, l) in eb]
         else:
             ea = [(A[i], LABELS[i]) for i in range(ka)]
             eb = [(B[i], LABELS[2 + i]) for i in range(kb)]
-            ta = PointTier("a", [Point(*e) for e in ea], 0.0, hia)
-            tb = PointTier("b", [Point(*e) for e in eb], 0.0, hib)
+            ta = PointTier("a", [Point(*e) for e in ea], loa, hia)
+            tb = PointTier("b", [Point(*e) for e in eb], lob, hib)
             exp = ea + [(t + hia, l) for (t, l) in eb]
         sa, sb = snap_tier(ta), snap_tier(tb)
         r = ta.appendTier(tb)
@@ -192,8 +193,8 @@ def ob_append_tier(kind, ka, kb, timeout):
             return "operand mutated"
         if tuples(r.entries) != exp:
             return "entries differ"
-        if (r.minTimestamp, r.maxTimestamp) != (0.0, hia + hib):
-            return "span differs"
+        if (r.minTimestamp, r.maxTimestamp) != (loa, hia + hib):
+            return "span differs: it starts where A starts and ends at the sum of both end times"
         if r.name != "a" or type(r) is not type(ta):
             return "name/type"
         return True
@@ -350,6 +351,7 @@ def ob_tg_shift(rmode, timeout):
         before = snap_tg(tg)
         ei, lo_i, hi_i, left_i = R.shift_intervals([(s0, e0, "x")], 0.0, hi, off)
         ep, lo_p, hi_p, left_p = R.shift_points([(t0, "q")], 0.0, hi, off)
+        del PRINTED[:]
         try:
             r = tg.editTimestamps(off, rmode)
         except (errors.OutOfBounds, errors.TextgridStateAutoModified):
@@ -358,6 +360,10 @@ def ob_tg_shift(rmode, timeout):
             return True if (rmode == "error" and (left_i or left_p)) else "unexpected error"
         if rmode == "error" and (left_i or left_p):
             return "not reported"
+        if rmode == "silence" and len(PRINTED) != 0:
+            return "something was reported although reportingMode is 'silence'"
+        if rmode == "warning" and (len(PRINTED) != 0) != bool(left_i or left_p):
+            return "a warning is printed exactly when an entry leaves the old span"
         if snap_tg(tg) != before:
             return "receiver mutated"
         if r.tierNames != ("i", "p", "empty"):
@@ -391,6 +397,7 @@ def obligations(tier):
         obs.append(ob_span_tests_ieee(120))
         obs.append(ob_tg_shift("silence", 180))
         obs.append(ob_tg_shift("error", 180))
+        obs.append(ob_tg_shift("warning", 180))
     else:
         for rm in ("silence", "warning", "error"):
             for k in (0, 1, 2, 3):
